@@ -4,7 +4,7 @@ import os, re, subprocess, sys, collections, shutil
 from concurrent.futures import ThreadPoolExecutor
 VERIF = os.path.dirname(os.path.dirname(os.path.abspath(__file__)))
 WORLD = os.path.join(VERIF, ".cache/target/debug/world"); MODEL = os.path.join(VERIF, "lean/.lake/build/bin/ggrs_model")
-FAMS = "mix clean long lockstep loss specack spec specdeath specdisc solo zombie death death3 three disc delay desync glitch forge misuse idle timesync events sync syncglitch".split()
+FAMS = "mix clean long lockstep loss hsloss specack spec specdeath specdisc solo zombie death death3 three disc delay desync glitch forge misuse idle timesync events sync syncglitch".split()
 PROPS = ",".join(f"C{i:02d}" for i in range(1, 19) if i not in (14, 16, 17))
 def main():
     count, seed = int(sys.argv[1]), int(sys.argv[2])
